@@ -61,7 +61,7 @@ func execBox(req string) string {
 var modelledBoxes = map[string]bool{}
 
 func init() {
-	for _, t := range strings.Fields("ftyp styp free skip mvhd tkhd mdhd hdlr vmhd smhd nmhd sthd stts ctts stsc stsz stco co64 stss sdtp elst mehd trex mfhd tfhd tfdt trun sidx saio saiz tenc frma pssh prft mfro btrt pasp") {
+	for _, t := range strings.Fields("ftyp styp free skip mvhd tkhd mdhd hdlr vmhd smhd nmhd sthd stts ctts stsc stsz stco co64 stss sdtp elst mehd trex mfhd tfhd tfdt trun sidx saio saiz tenc frma pssh prft mfro btrt pasp clap cslg CoLL SmDm sbgp") {
 		modelledBoxes[t] = true
 	}
 }
